@@ -271,7 +271,7 @@ def main(tier):
     c = vlib.Check("C04", tier)
     quick = tier == "quick"
     rng = c.rng
-    c.phase_translator(["nodes", "table_rows"])
+    c.phase_translator(["nodes", "table_rows", "add_child"])
     tr = dict(c.cov.get("translator", {}))
     c.phase_proofs("C04")
     ok = c04_links.run(c, quick_histories=1200)
